@@ -12,5 +12,5 @@ CONSTANTS
   Defect_AddDeadConn = FALSE
   Mut = "none"
 INVARIANTS TypeOK NoSelfDeadlock SizeBound OneFiller ClosedEmpty ReportedNotInPool NoStray NoLeakAfterClose PoolConnsAlive
-PROPERTIES FillEnds AllClosedEventually CloseReturns
+PROPERTIES FillEnds AllClosedEventually CloseReturns PoolRefilled
 CHECK_DEADLOCK FALSE
